@@ -221,3 +221,42 @@ func (r *Replayer) validateSample(spec RunSpec, s PathSample, known map[string]b
 	}
 	return true, ""
 }
+
+// validateModels runs the native model-vs-library comparison (TestVerifModels) and returns
+// the number of comparisons performed.
+func (r *Replayer) validateModels(thorough bool) (int, error) {
+	w := r.w
+	repl := map[string]string{}
+	i := 0
+	for p, content := range w.overlay {
+		f := filepath.Join(r.dir, fmt.Sprintf("mv_%d.go.txt", i))
+		i++
+		os.WriteFile(f, content, 0o644)
+		repl[p] = f
+	}
+	ovFile := filepath.Join(r.dir, "overlay_models.json")
+	ob, _ := json.Marshal(map[string]any{"Replace": repl})
+	os.WriteFile(ovFile, ob, 0o644)
+	bin := filepath.Join(r.dir, "models.test")
+	cmd := exec.Command("go", "test", "-c", "-o", bin, "-tags", "verif", "-vet=off", "-overlay", ovFile, "./zzverif/models/")
+	cmd.Dir = w.repo
+	cmd.Env = r.goEnv()
+	if out, err := cmd.CombinedOutput(); err != nil {
+		return 0, fmt.Errorf("building the models test failed: %v\n%s", err, out)
+	}
+	run := exec.Command(bin, "-test.run", "^TestVerifModels$", "-test.count=1")
+	run.Dir = r.dir
+	run.Env = os.Environ()
+	if thorough {
+		run.Env = append(run.Env, "VERIF_MODELS_LEN=4")
+	}
+	out, err := run.CombinedOutput()
+	if err != nil {
+		return 0, fmt.Errorf("a Go-source model disagrees with the real library:\n%s", out)
+	}
+	n := 0
+	for _, l := range strings.Split(string(out), "\n") {
+		fmt.Sscanf(l, "VERIF-MODELS-COMPARISONS %d", &n)
+	}
+	return n, nil
+}
